@@ -102,7 +102,15 @@ func (g *verifTypeGen) gen(depth int) types.Type {
 	var ms []*types.Func
 	nm := vp.Choose(g.name("nm"), 3)
 	for i := 0; i < nm; i++ {
-		sig := types.NewSignatureType(nil, nil, nil, types.NewTuple(v("", g.gen(depth-1))), nil, false)
+		var sig *types.Signature
+		switch vp.Choose(g.name("msig"), 3) {
+		case 0:
+			sig = types.NewSignatureType(nil, nil, nil, types.NewTuple(v("", g.gen(depth-1))), nil, false)
+		case 1: // variadic method
+			sig = types.NewSignatureType(nil, nil, nil, types.NewTuple(v("format", types.Typ[types.String]), v("args", types.NewSlice(g.gen(depth-1)))), nil, true)
+		case 2: // results
+			sig = types.NewSignatureType(nil, nil, nil, nil, types.NewTuple(v("", g.gen(depth-1)), v("", types.Universe.Lookup("error").Type())), false)
+		}
 		ms = append(ms, types.NewFunc(token.NoPos, g.pkg, []string{"M", "n"}[i], sig))
 	}
 	// embedded interfaces: none, error, or two/three distinct ones (named and literal)
